@@ -66,7 +66,35 @@ def gen_sel(rng):
     return {"levels": levels, "focus": focus}
 
 
+def gen_coroutine(rng, tier):
+    """prod(k~cond) > cons > item: cons is a coroutine that prod primes *before* k is first bound and
+    then feeds in a loop over k -- the condition on k filters all the same (events and overrides)."""
+    cap = {"var": "k", "as": "k0", "cond": gen_cond(rng)}
+    sel = {"levels": [{"fn": "prod", "caps": [cap], "sibs": []}, {"fn": "cons", "caps": [], "sibs": []}],
+           "focus": {"var": "item", "as": "itemf"}}
+    ops = []
+    if rng.random() < 0.4:
+        ops.append({"op": "mk", "id": "o0", "kind": "overridable", "sels": [sel],
+                    "how": ["const", rng.choice([0, 2, 5])], "nojudge": True})
+    else:
+        ops.append({"op": "mk", "id": "p0", "sels": [sel], "inv": "C12.filter", "style": rng.randrange(2)})
+    ops.append({"op": "enter", "id": ops[-1]["id"]})
+    if rng.random() < 0.5:
+        import copy
+
+        sel2 = copy.deepcopy(sel)
+        sel2["levels"][0]["caps"][0]["cond"] = gen_cond(rng)
+        ops += [{"op": "mk", "id": "p1", "sels": [sel2], "inv": "C12.filter", "style": 0}, {"op": "enter", "id": "p1"}]
+    tl = 30 if tier == "quick" else 60
+    for _ in range(rng.randint(1, 3)):
+        ops.append({"op": "call", "fn": "prod", "nargs": 1,
+                    "tape": gen_tape(rng, rng.randint(6, tl), hi=40, odd=0.6), "faults": {}, "box": BOX})
+    return {"prog": "loops", "ops": ops, "subst_inv": "C12.override_filter"}
+
+
 def gen(rng, tier, quarantine=()):
+    if "no-coroutines" not in quarantine and rng.random() < 0.1:
+        return gen_coroutine(rng, tier)
     ops = []
     nprobes = rng.choice([1, 2, 2, 3])
     prev = None
